@@ -103,8 +103,10 @@ def run_case(spec):
     try:
         with warnings.catch_warnings(), np.errstate(all='ignore'):
             warnings.simplefilter('ignore')
+            from ..instrument import Hooks, VirtualClock
             if spec['kind'] == 'evidence':
-                ok = s.run(**workloads.run_kwargs(cfg, n_like_max=400000))
+                with Hooks([], proposal_budget=60_000_000, clock=VirtualClock()):
+                    ok = s.run(**workloads.run_kwargs(cfg, n_like_max=400000))
                 if not ok:
                     return {'status': 'ok', 'obs': obs, 'nontrivial': False, 'member': None, 'key': 'm%d' % spec['i']}
                 pts, log_w, _ = s.posterior()
@@ -114,10 +116,10 @@ def run_case(spec):
                 member = dict(log_z=float(s.log_z), n_eff=float(s.n_eff), mean=mean.tolist(), var=var.tolist(),
                               n_like=int(s.n_like), n_bounds=len(s.bounds))
             else:
-                ok = s.run(f_live=cfg['f_live'], n_shell=0, n_eff=0, discard_exploration=True, n_like_max=400000)
+                with Hooks([], proposal_budget=60_000_000, clock=VirtualClock()):
+                    ok = s.run(f_live=cfg['f_live'], n_shell=0, n_eff=0, discard_exploration=True, n_like_max=400000)
                 if not ok or not s.explored:
                     return {'status': 'ok', 'obs': obs, 'nontrivial': False, 'member': None, 'key': 'm%d' % spec['i']}
-                from ..instrument import Hooks
                 with Hooks([], proposal_budget=30_000_000):
                     for i in range(len(s.bounds)):
                         for _ in range(10):
